@@ -155,6 +155,15 @@ func c05RunConfig(r *ev.Result, base string, idx int, cfg c05Config, cache strin
 		return "", false
 	}
 	defer w.Stop()
+	if 0 == idx%3 {
+		/* Four connections that never say anything are around (a scanner,
+		a health check, nc): no concern of the clients that do. */
+		for _, h := range []string{"127.0.0.1", "::1", "127.0.0.1", "::1", "127.0.0.1", "::1"} {
+			if c, err := net.DialTimeout("tcp", net.JoinHostPort(h, w.Port), 5*time.Second); nil == err {
+				defer c.Close()
+			}
+		}
+	}
 	wire, err := c05Wire(w, "")
 	if nil != err {
 		v("handshake-failed", err.Error())
